@@ -475,7 +475,7 @@ func init() {
 		Shards: shards(14, 16),
 		Meta: func(tier string) rt.Meta {
 			return rt.Meta{Level: "exploration", MinEvals: 20000, MinDistinct: 200,
-				Rule:        "(a) reflection-driven adversarial sweep: the method sets of MemFS, OrefaFS, RoFS and BasePathFS over both, FailFS, a Sub view, MemIdm and of their File handles (regular read/write/append, directory, closed, nil typed handle returned together with an error) are walked with reflect and every parameter is filled from a hostile domain chosen by its Go type (paths: empty, ., .., /, //, unclean, NUL and backslash, 300-byte names, 400-byte paths, glob metacharacters; integers: MinInt64, -1, 0, boundaries up to 1 MiB; open flags; file modes incl. type bits; buffers; times; callbacks), after random preceding calls; plus the exported helpers (Glob, WalkDir, CopyFile, HashFile, PathIterator, FromUnixPath, To/FromBasePath, RndTree...). Each call runs under recover() and under the sequential lock hook, which turns a lock that can never be acquired into a logical 'never returns' verdict and counts lock sites for runaway detection. (a') permission-failure scenarios: a tree built by a non-administrator on MemFS, non-empty directories then protected by the administrator, RemoveAll/MkdirAll/Rename/Remove by the owner failing half-way; the call and Stat/ReadDir/Lstat of every directory afterwards must return (a lock kept on an error path is a logical self-deadlock). (a1b) directory handles read in batches (ReadDir/Readdirnames mixed) while entries are removed and created: every call returns. (a2) every FailFS function id failing in turn x composite helpers (ReadFile, WriteFile, CopyFile, HashFile, ReadDir, WalkDir, Glob, MkdirAll, temp helpers, RemoveAll) on files of 0..70000 bytes around the 512-byte and 32 KiB buffers: every call returns. (b) deadlock/panic verdicts of the deterministic scheduler over the C06 programs plus dedicated lock-order programs (opposite cross-directory renames, rename against mkdir/remove/open in the involved directories, link against remove, handle operations against path operations on the same node). Signature = type.method | verdict; all non-trivial.",
+				Rule:        "(a) reflection-driven adversarial sweep: the method sets of MemFS, OrefaFS, RoFS and BasePathFS over both, FailFS, a Sub view, MemIdm and of their File handles (regular read/write/append, directory, closed, nil typed handle returned together with an error) are walked with reflect and every parameter is filled from a hostile domain chosen by its Go type (paths: empty, ., .., /, //, unclean, NUL and backslash, 300-byte names, 400-byte paths, glob metacharacters; integers: MinInt64, -1, 0, boundaries up to 1 MiB; open flags; file modes incl. type bits; buffers; times; callbacks), after random preceding calls; plus the exported helpers (Glob, WalkDir, CopyFile, HashFile, PathIterator, FromUnixPath, To/FromBasePath, RndTree...). Each call runs under recover() and under the sequential lock hook, which turns a lock that can never be acquired into a logical 'never returns' verdict and counts lock sites for runaway detection. (a') permission-failure scenarios: a tree built by a non-administrator on MemFS, non-empty directories then protected by the administrator, RemoveAll/MkdirAll/Rename/Remove by the owner failing half-way; the call and Stat/ReadDir/Lstat of every directory afterwards must return (a lock kept on an error path is a logical self-deadlock). (a1b) directory handles read in batches (ReadDir/Readdirnames mixed) while entries are removed and created: every call returns. (a2) every FailFS function id failing in turn x composite helpers (ReadFile, WriteFile, CopyFile, HashFile, ReadDir, WalkDir, Glob, MkdirAll, temp helpers, RemoveAll) on files of 0..70000 bytes around the 512-byte and 32 KiB buffers: every call returns. (b) deadlock/panic verdicts of the deterministic scheduler over the C06 programs, over all pairs (plus a third) of methods called by different goroutines on ONE shared file or directory handle, and over dedicated lock-order programs (opposite cross-directory renames, rename against mkdir/remove/open in the involved directories, link against remove, handle operations against path operations on the same node). Signature = type.method | verdict; all non-trivial.",
 				Assumptions: []string{"sizes and offsets beyond 1 MiB (allocation bombs on an in-memory file system) and a nil UserReader are outside the domain", "pure-CPU non-termination without lock acquisitions would only be caught by the worker watchdog (inconclusive)"}}
 		},
 		CrashIsViolation: true,
@@ -616,9 +616,114 @@ func init() {
 					c06Program(c, fsType, ti, trees[ti], progs, 2, c.Pick(100, 500), c.Pick(10, 40), st, r)
 				}
 			}
+			c07SharedHandle(c, st, r)
 			c.Rep.Count("distinct_interleavings", int64(len(st.inter)))
 		},
 	})
+}
+
+// c07SharedHandle runs, under the deterministic scheduler, two or three goroutines calling methods of ONE open handle
+// (a regular file and a directory): every schedule must end with every call returned. A lock of the handle taken twice
+// by one call (a read lock re-entered while a writer waits) is a deadlock the sequential sweep cannot see.
+func c07SharedHandle(c *rt.Ctx, st *c06Stats, r *rand.Rand) {
+	type hop struct {
+		name string
+		f    func(f avfs.File)
+	}
+	buf := func() []byte { return make([]byte, 4) }
+	fileOps := []hop{
+		{"Stat", func(f avfs.File) { _, _ = f.Stat() }}, {"Seek(0,2)", func(f avfs.File) { _, _ = f.Seek(0, 2) }}, {"Seek(1,1)", func(f avfs.File) { _, _ = f.Seek(1, 1) }},
+		{"Read", func(f avfs.File) { _, _ = f.Read(buf()) }}, {"ReadAt", func(f avfs.File) { _, _ = f.ReadAt(buf(), 1) }}, {"Write", func(f avfs.File) { _, _ = f.Write([]byte("xy")) }},
+		{"WriteAt", func(f avfs.File) { _, _ = f.WriteAt([]byte("z"), 2) }}, {"WriteString", func(f avfs.File) { _, _ = f.WriteString("s") }}, {"Truncate", func(f avfs.File) { _ = f.Truncate(3) }},
+		{"Chmod", func(f avfs.File) { _ = f.Chmod(0o600) }}, {"Chown", func(f avfs.File) { _ = f.Chown(0, 0) }}, {"Sync", func(f avfs.File) { _ = f.Sync() }}, {"Name", func(f avfs.File) { _ = f.Name() }},
+		{"Close", func(f avfs.File) { _ = f.Close() }},
+	}
+	dirOps := []hop{
+		{"Stat", func(f avfs.File) { _, _ = f.Stat() }}, {"ReadDir(1)", func(f avfs.File) { _, _ = f.ReadDir(1) }}, {"ReadDir(-1)", func(f avfs.File) { _, _ = f.ReadDir(-1) }},
+		{"Readdirnames(1)", func(f avfs.File) { _, _ = f.Readdirnames(1) }}, {"Chdir", func(f avfs.File) { _ = f.Chdir() }}, {"Chmod", func(f avfs.File) { _ = f.Chmod(0o700) }},
+		{"Name", func(f avfs.File) { _ = f.Name() }}, {"Close", func(f avfs.File) { _ = f.Close() }},
+	}
+	idx := 0
+	for _, fsType := range []string{"MemFS", "OrefaFS"} {
+		for _, dir := range []bool{false, true} {
+			ops := fileOps
+			if dir {
+				ops = dirOps
+			}
+			for i := range ops {
+				for j := i; j < len(ops); j++ {
+					idx++
+					if idx%c.NShards != c.Shard {
+						continue
+					}
+					third := ops[r.IntN(len(ops))]
+					prog := []hop{ops[i], ops[j], third}
+					nw := 2 + r.IntN(2)
+					prog = prog[:nw]
+					names := make([]string, nw)
+					for w := range prog {
+						names[w] = prog[w].name
+					}
+					what := fmt.Sprintf("%s shared %s handle: %v", fsType, map[bool]string{false: "file", true: "directory"}[dir], names)
+					runOne := func(choose func(e *sched.Exec, enabled []int) int) *sched.Exec {
+						v, _ := newEmu(fsType)
+						_ = v.MkdirAll("/w/d/sub", 0o755)
+						_ = v.WriteFile("/w/f", []byte("0123456789"), 0o644)
+						_ = v.WriteFile("/w/d/e", []byte("e"), 0o644)
+						var f avfs.File
+						if dir {
+							f, _ = v.OpenFile("/w/d", 0, 0)
+						} else {
+							f, _ = v.OpenFile("/w/f", 2, 0)
+						}
+						var e *sched.Exec
+						panics := make([]string, nw)
+						bodies := make([]func(int), nw)
+						for w := range prog {
+							w := w
+							bodies[w] = func(int) {
+								defer func() {
+									if x := recover(); x != nil {
+										panics[w] = fmt.Sprint(x)
+									}
+								}()
+								e.Boundary()
+								prog[w].f(f)
+							}
+						}
+						e = sched.New(bodies, choose)
+						verdict, desc := e.Run()
+						st.inter[e.InterleavingHash()] = true
+						c.Rep.Count("schedules", 1)
+						c.Rep.Case(fmt.Sprintf("%s|shared-handle|dir=%v|%s|switches=%d", fsType, dir, strings.Join(names, "+"), min3(e.Switches, 4)), e.Switches > 0)
+						var ch []int
+						for _, d := range e.Trace {
+							ch = append(ch, d.Chosen)
+						}
+						replay := map[string]any{"fs": fsType, "directory_handle": dir, "workers": names, "schedule": ch}
+						switch {
+						case verdict == sched.Deadlock:
+							c.Disagree(fmt.Sprintf("%s|shared-handle|%s|deadlock", fsType, strings.Join(names, "+")), what+": a schedule ends with every unfinished goroutine waiting for a lock: "+desc, replay)
+						case verdict != sched.Completed:
+							c.Disagree(fmt.Sprintf("%s|shared-handle|%s|runaway", fsType, strings.Join(names, "+")), what+": a schedule does not terminate: "+desc, replay)
+						default:
+							for w, px := range panics {
+								if px != "" {
+									c.Disagree(fmt.Sprintf("%s|shared-handle|%s|panic", fsType, strings.Join(names, "+")), fmt.Sprintf("%s: %s panics: %s", what, names[w], px), replay)
+								}
+							}
+						}
+						return e
+					}
+					sched.Explore(2, c.Pick(60, 600), func(p []int) *sched.Exec { return runOne(sched.Prefix(p)) })
+					for k := 0; k < c.Pick(3, 20); k++ {
+						runOne(sched.Random(r.IntN, 6))
+					}
+					c.Rep.Count("shared_handle_programs", 1)
+				}
+			}
+		}
+	}
 }
 
 // c07Faults fails every consultation of one FailFS function id at a time (all ids) and runs the helpers that are made of
